@@ -220,6 +220,17 @@ def unhexlify (s : Text) : Outcome Bytes := Pin.unhexlify s
 /-- `c.isalpha()` for an ASCII character (the translated callers apply it to hex digits) -/
 def isAlphaAscii (c : Nat) : Bool := decide ((65 ≤ c ∧ c ≤ 90) ∨ (97 ≤ c ∧ c ≤ 122))
 
+/-- `'{v:0{w}b}'.format(...)` -/
+def fmtBinW (w v : Int) : Text := (Pin.fmtBinW w.toNat v.toNat).map (48 + ·)
+
+/-- `int(s, 2)`: ValueError unless `s` is a non-empty string of 0s and 1s -/
+def intBin (s : Text) : Outcome Int :=
+  match Pin.intBin s with
+  | .ok n => .ok (n : Int)
+  | .dataError => .dataError
+  | .escape k => .escape k
+  | .diverge => .diverge
+
 /-- `''.join(list_of_str)` -/
 def joinStr (l : List Text) : Text := l.flatten
 
